@@ -1,50 +1,20 @@
-import Gedcom.Model.Compare
+/-
+  Request dispatch.  Each topic has its own handler file under Driver/Handlers; a handler
+  returns `none` for a command it does not own.  To add a topic: one import, one list entry.
+-/
+import Driver.Util
+import Driver.Handlers.Dates
 namespace Driver
-open Gedcom
 
-def parseInts (ws : List String) : Option (List Int) := ws.mapM String.toInt?
-def parseNats (ws : List String) : Option (List Nat) := ws.mapM String.toNat?
-
-def b2s (b : Bool) : String := if b then "1" else "0"
+def handlers : List (String → List String → Option String) :=
+  [handleDates]
 
 def respond (line : String) : String :=
   match line.splitOn " " with
-  | "cmp" :: rest =>
-    -- cmp d m y  d m y  d m y  d m y : receiver start, receiver end, argument start, argument end
-    match parseNats rest with
-    | some [d1, m1, y1, d2, m2, y2, d3, m3, y3, d4, m4, y4] =>
-      let r := compareDates ⟨d1, m1, y1⟩ ⟨d2, m2, y2⟩ ⟨d3, m3, y3⟩ ⟨d4, m4, y4⟩
-      s!"{r.name} {b2s (Generated.relIsEqual r)}{b2s (Generated.relIsPartiallyEqual r)}{b2s (Generated.relIsNotEqual r)}"
-    | _ => "bad-op"
-  | "cmpi" :: rest =>
-    match parseInts rest with
-    | some [a, b, c, d] => (compare a b c d).name
-    | _ => "bad-op"
-  | "date" :: rest =>
-    -- date d m y : start/end day number (unix days), period length, Years as y num den
-    match parseNats rest with
-    | some [d, m, y] =>
-      let dt : Date := ⟨d, m, y⟩
-      s!"{dt.firstDay - 719163} {dt.lastDay - 719163} {dt.periodDays} {dt.year} {dt.yearsNum} {dt.yearsDen}"
-    | _ => "bad-op"
-  | "before" :: rest =>
-    -- before d m y d m y [same] : IsBefore, IsAfter, exact tie
-    match parseNats (rest.take 6) with
-    | some [d1, m1, y1, d2, m2, y2] =>
-      let a : Date := ⟨d1, m1, y1⟩
-      let b : Date := ⟨d2, m2, y2⟩
-      s!"{b2s (a.isBefore b)}{b2s (a.isAfter b)}{b2s (!(a.isBefore b) && !(a.isAfter b))}"
-    | _ => "bad-op"
-  | "minmax" :: rest =>
-    match parseNats rest with
-    | some ns =>
-      let rec triples : List Nat → List Date
-        | d :: m :: y :: more => ⟨d, m, y⟩ :: triples more
-        | _ => []
-      let ds := triples ns
-      let show_ (o : Option Nat) : String := match o with | some i => toString i | none => "-1"
-      s!"{show_ (minimumIdx ds)} {show_ (maximumIdx ds)}"
-    | _ => "bad-op"
-  | _ => "bad-op"
+  | [] => "bad-op"
+  | cmd :: rest =>
+    match handlers.findSome? (fun h => h cmd rest) with
+    | some r => r
+    | none => "bad-op"
 
 end Driver
